@@ -19,6 +19,7 @@ vars == <<regs, h>>
 N == NU + NI
 SeedsDefault == {-64, -9, -1, 0, 1, 2, 3, 7, 8, 12, 63, 64}     \* cfg files cannot write negative numbers
 SeedsSmall == {-2, -1, 0, 1, 2, 5}
+SeedsTiny == {-3, 0, 1, 6}
 PANIC == 1000003        \* marker value: the call must panic (outside every value range used)
 IsU(r) == r <= NU
 Abs(v) == IF v < 0 THEN -v ELSE v
@@ -77,7 +78,7 @@ Room == Len(h) <= Depth
 
 Init == /\ regs \in [1..N -> Seeds] /\ \A r \in 1..NU : regs[r] >= 0
         /\ h = << [op |-> "init", form |-> 0, a |-> 0, b |-> 0, d |-> 0, k |-> 0, v |-> FALSE, panic |-> FALSE,
-                   post |-> [r \in 1..N |-> regs[r]], ret |-> 0] >>
+                   post |-> [r \in 1..N |-> regs[r]], ret |-> 0, txt |-> <<>>] >>
 
 Bin(op, form, a, b, d) ==
     /\ Room /\ IsU(a) = IsU(b) /\ IsU(a) = IsU(d) /\ a # b
@@ -85,21 +86,21 @@ Bin(op, form, a, b, d) ==
        /\ Small(val)
        /\ regs' = [regs EXCEPT ![d] = IF val = PANIC THEN 0 ELSE val]
        /\ Log([op |-> op, form |-> form, a |-> a, b |-> b, d |-> d, k |-> 0, v |-> FALSE, panic |-> (val = PANIC),
-               post |-> [r \in 1..N |-> regs'[r]], ret |-> 0])
+               post |-> [r \in 1..N |-> regs'[r]], ret |-> 0, txt |-> <<>>])
 Un(op, form, a, d) ==
     /\ Room /\ IsU(a) = IsU(d) /\ UnDefined(op, IsU(a))
     /\ LET val == UnVal(op, regs[a], IsU(a)) IN
        /\ Small(val)
        /\ regs' = [regs EXCEPT ![d] = IF val = PANIC THEN 0 ELSE val]
        /\ Log([op |-> op, form |-> form, a |-> a, b |-> 0, d |-> d, k |-> 0, v |-> FALSE, panic |-> (val = PANIC),
-               post |-> [r \in 1..N |-> regs'[r]], ret |-> 0])
+               post |-> [r \in 1..N |-> regs'[r]], ret |-> 0, txt |-> <<>>])
 Shift(op, form, a, d, k) ==
     /\ Room /\ IsU(a) = IsU(d)
     /\ LET val == IF k < 0 THEN PANIC ELSE IF op = "shl" THEN regs[a] * Pw(2, k) ELSE regs[a] \div Pw(2, k) IN
        /\ Small(val)
        /\ regs' = [regs EXCEPT ![d] = IF val = PANIC THEN 0 ELSE val]
        /\ Log([op |-> op, form |-> form, a |-> a, b |-> 0, d |-> d, k |-> k, v |-> FALSE, panic |-> (val = PANIC),
-               post |-> [r \in 1..N |-> regs'[r]], ret |-> 0])
+               post |-> [r \in 1..N |-> regs'[r]], ret |-> 0, txt |-> <<>>])
 SetBit(a, k, v) ==
     /\ Room
     /\ LET cur == IBit(regs[a], k)
@@ -107,14 +108,14 @@ SetBit(a, k, v) ==
        /\ Small(val)
        /\ regs' = [regs EXCEPT ![a] = val]
        /\ Log([op |-> "set_bit", form |-> 0, a |-> a, b |-> 0, d |-> a, k |-> k, v |-> v, panic |-> FALSE,
-               post |-> [r \in 1..N |-> regs'[r]], ret |-> 0])
+               post |-> [r \in 1..N |-> regs'[r]], ret |-> 0, txt |-> <<>>])
 PowOp(a, d, k) ==
     /\ Room /\ IsU(a) = IsU(d) /\ Abs(regs[a]) <= 6
     /\ LET val == Pw(regs[a], k) IN
        /\ Small(val)
        /\ regs' = [regs EXCEPT ![d] = val]
        /\ Log([op |-> "pow", form |-> 0, a |-> a, b |-> 0, d |-> d, k |-> k, v |-> FALSE, panic |-> FALSE,
-               post |-> [r \in 1..N |-> regs'[r]], ret |-> 0])
+               post |-> [r \in 1..N |-> regs'[r]], ret |-> 0, txt |-> <<>>])
 \* observations: cmp / bit / trailing zeros leave the registers alone and return a primitive
 Obs(op, a, b, k) ==
     /\ Room /\ IsU(a) = IsU(b)
@@ -123,26 +124,123 @@ Obs(op, a, b, k) ==
                     [] op = "bit" -> IBit(regs[a], k)
                     [] op = "is_multiple_of" -> IF regs[b] = 0 THEN (IF regs[a] = 0 THEN 1 ELSE 0) ELSE (IF regs[a] % Abs(regs[b]) = 0 THEN 1 ELSE 0)
                     [] op = "is_odd" -> regs[a] % 2
+                    [] op = "trailing_zeros" -> LET RECURSIVE tz(_) tz(x) == IF (x % 2) = 1 THEN 0 ELSE 1 + tz(x \div 2) IN IF regs[a] = 0 THEN -1 ELSE tz(Abs(regs[a]))
+                    [] op = "count_ones" -> LET RECURSIVE co(_) co(x) == IF x = 0 THEN 0 ELSE (x % 2) + co(x \div 2) IN co(Abs(regs[a]))
                     [] op = "bits" -> LET RECURSIVE bl(_) bl(x) == IF x = 0 THEN 0 ELSE 1 + bl(x \div 2) IN bl(Abs(regs[a]))
        IN Log([op |-> op, form |-> 0, a |-> a, b |-> b, d |-> 0, k |-> k, v |-> FALSE, panic |-> FALSE,
-               post |-> [r \in 1..N |-> regs[r]], ret |-> ret])
+               post |-> [r \in 1..N |-> regs[r]], ret |-> ret, txt |-> <<>>])
+\* exports: text in a radix, bytes, shortest two's complement bytes, primitive range tests, exact float
+RECURSIVE DigitsMsb(_, _)
+DigitsMsb(v, r) == IF v < r THEN <<v>> ELSE Append(DigitsMsb(v \div r, r), v % r)
+DigitChar(d) == IF d < 10 THEN 48 + d ELSE 87 + d
+TextOf(v, r) == LET ds == DigitsMsb(Abs(v), r) IN (IF v < 0 THEN <<45>> ELSE <<>>) \o [k \in 1..Len(ds) |-> DigitChar(ds[k])]
+RECURSIVE BytesLE(_)
+BytesLE(v) == IF v < 256 THEN <<v>> ELSE <<v % 256>> \o BytesLE(v \div 256)
+RECURSIVE NBytes(_, _)
+NBytes(v, n) == IF v >= -(Pw(2, 8 * n - 1)) /\ v < Pw(2, 8 * n - 1) THEN n ELSE NBytes(v, n + 1)     \* shortest two's complement length
+RECURSIVE FixBytes(_, _)
+FixBytes(v, n) == IF n = 0 THEN <<>> ELSE <<v % 256>> \o FixBytes(v \div 256, n - 1)
+SignedBytesLE(v) == LET n == NBytes(v, 1) IN FixBytes(IF v < 0 THEN v + Pw(2, 8 * n) ELSE v, n)
+Export(op, a, k) ==
+    /\ Room /\ UNCHANGED regs
+    /\ LET v == regs[a]
+           txt == CASE op = "to_str_radix" -> TextOf(v, k)
+                    [] op = "to_bytes_le" -> BytesLE(Abs(v))
+                    [] op = "to_signed_bytes_le" -> SignedBytesLE(v)
+                    [] OTHER -> <<>>
+           ret == CASE op = "to_i8" -> (IF v >= -128 /\ v <= 127 THEN 1 ELSE 0)
+                    [] op = "to_u8" -> (IF v >= 0 /\ v <= 255 THEN 1 ELSE 0)
+                    [] op = "to_i16" -> (IF v >= -32768 /\ v <= 32767 THEN 1 ELSE 0)
+                    [] op = "to_f64" -> v                       \* |v| < 2^53: the float is exact
+                    [] OTHER -> 0
+       IN Log([op |-> op, form |-> 0, a |-> a, b |-> 0, d |-> 0, k |-> k, v |-> FALSE, panic |-> FALSE,
+               post |-> [r \in 1..N |-> regs[r]], ret |-> ret, txt |-> txt])
+
+\* imports: the text / bytes of a chosen value are given to the parser; an unsigned register must refuse a minus sign
+Import(op, d, val, k) ==
+    /\ Room
+    /\ LET txt == CASE op = "parse" -> TextOf(val, k)
+                    [] op = "from_bytes_le" -> BytesLE(Abs(val)) \o (IF k = 2 THEN <<0, 0>> ELSE <<>>)     \* with high zero bytes
+                    [] op = "from_signed_bytes_le" -> SignedBytesLE(val) \o (IF k = 2 THEN (IF val < 0 THEN <<255>> ELSE <<0>>) ELSE <<>>)   \* with sign extension
+           fails == op = "parse" /\ IsU(d) /\ val < 0
+           nv == IF fails THEN regs[d] ELSE IF op = "from_bytes_le" THEN Abs(val) ELSE val
+       IN /\ (IsU(d) /\ op = "from_signed_bytes_le" => val >= 0)
+          /\ regs' = [regs EXCEPT ![d] = nv]
+          /\ Log([op |-> op, form |-> 0, a |-> 0, b |-> 0, d |-> d, k |-> k, v |-> FALSE, panic |-> FALSE,
+                  post |-> [r \in 1..N |-> regs'[r]], ret |-> (IF fails THEN 0 ELSE 1), txt |-> txt])
+\* modular exponentiation: the result takes the sign of the modulus (floored), modulus zero and negative exponents panic
+RECURSIVE PwMod(_, _, _)
+PwMod(x, e, m) == IF e = 0 THEN 1 - ((1 \div m) * m) ELSE LET t == x * PwMod(x, e - 1, m) IN t - (t \div m) * m
+ModPow(a, b, d, e) ==
+    /\ Room /\ IsU(a) = IsU(b) /\ IsU(a) = IsU(d)
+    /\ LET val == IF regs[b] = 0 \/ e < 0 THEN PANIC ELSE PwMod(regs[a], e, regs[b]) IN
+       /\ (e < 0 => ~IsU(a))
+       /\ regs' = [regs EXCEPT ![d] = IF val = PANIC THEN 0 ELSE val]
+       /\ Log([op |-> "modpow", form |-> 0, a |-> a, b |-> b, d |-> d, k |-> e, v |-> FALSE, panic |-> (val = PANIC),
+               post |-> [r \in 1..N |-> regs'[r]], ret |-> 0, txt |-> <<>>])
+\* modular inverse: Some(x) with 0 <= x < |m| (sign of m for BigInt) and a * x == 1 (mod m), None otherwise; m = 0 panics
+ModInv(a, b, d) ==
+    /\ Room /\ IsU(a) = IsU(b) /\ IsU(a) = IsU(d)
+    /\ LET m == regs[b]  x == regs[a]
+           cands == IF m = 0 THEN {} ELSE {c \in (IF m > 0 THEN 0..(m - 1) ELSE (m + 1)..0) : ((x * c - 1) % Abs(m)) = 0}
+           some == cands # {}
+       IN /\ Abs(m) <= 600
+          /\ regs' = [regs EXCEPT ![d] = IF m = 0 THEN 0 ELSE IF some THEN (CHOOSE c \in cands : TRUE) ELSE regs[d]]
+          /\ Log([op |-> "modinv", form |-> 0, a |-> a, b |-> b, d |-> d, k |-> 0, v |-> FALSE, panic |-> (m = 0),
+                  post |-> [r \in 1..N |-> regs'[r]], ret |-> (IF some THEN 1 ELSE 0), txt |-> <<>>])
+\* n-th roots: truncated; n = 0 panics, an even root of a negative value panics, an odd root keeps the sign
+RECURSIVE Iroot(_, _, _)
+Iroot(x, n, g) == IF Pw(g + 1, n) <= x THEN Iroot(x, n, g + 1) ELSE g
+NthRoot(a, d, n) ==
+    /\ Room /\ IsU(a) = IsU(d)
+    /\ LET x == regs[a]
+           val == IF n = 0 \/ (x < 0 /\ (n % 2) = 0) THEN PANIC
+                  ELSE IF n >= 14 THEN (IF x = 0 THEN 0 ELSE Sgn(x))       \* |x| <= MaxAbs < 2^14
+                  ELSE Sgn(x) * Iroot(Abs(x), n, 0) IN
+       /\ regs' = [regs EXCEPT ![d] = IF val = PANIC THEN 0 ELSE val]
+       /\ Log([op |-> "nth_root", form |-> 0, a |-> a, b |-> 0, d |-> d, k |-> n, v |-> FALSE, panic |-> (val = PANIC),
+               post |-> [r \in 1..N |-> regs'[r]], ret |-> 0, txt |-> <<>>])
+\* checked arithmetic: None exactly where the operator would panic, and the destination is then left alone
+Checked(op, a, b, d) ==
+    /\ Room /\ IsU(a) = IsU(b) /\ IsU(a) = IsU(d)
+    /\ LET val == BinVal(op, regs[a], regs[b], IsU(a)) IN
+       /\ Small(val)
+       /\ regs' = [regs EXCEPT ![d] = IF val = PANIC THEN regs[d] ELSE val]
+       /\ Log([op |-> "checked_" \o op, form |-> 0, a |-> a, b |-> b, d |-> d, k |-> 0, v |-> FALSE, panic |-> FALSE,
+               post |-> [r \in 1..N |-> regs'[r]], ret |-> (IF val = PANIC THEN 0 ELSE 1), txt |-> <<>>])
+
 \* conversions between the two banks
 Convert(a, d) ==
     /\ Room /\ IsU(a) # IsU(d)
     /\ LET ok == IsU(a) \/ regs[a] >= 0 IN     \* to_biguint succeeds exactly for non-negative values
        /\ regs' = [regs EXCEPT ![d] = IF ok THEN regs[a] ELSE 0]
        /\ Log([op |-> "convert", form |-> 0, a |-> a, b |-> 0, d |-> d, k |-> 0, v |-> ok, panic |-> FALSE,
-               post |-> [r \in 1..N |-> regs'[r]], ret |-> 0])
+               post |-> [r \in 1..N |-> regs'[r]], ret |-> 0, txt |-> <<>>])
 
-Next ==
+Steps ==
     \/ \E op \in BinOps, form \in 0..3, a, b, d \in 1..N : Bin(op, form, a, b, d)
     \/ \E op \in UnOps, form \in 0..1, a, d \in 1..N : Un(op, form, a, d)
     \/ \E op \in {"shl", "shr"}, form \in 0..2, a, d \in 1..N, k \in (-1)..5 : Shift(op, form, a, d, k)
     \/ \E a \in 1..N, k \in 0..6, v \in BOOLEAN : SetBit(a, k, v)
     \/ \E a, d \in 1..N, k \in 0..3 : PowOp(a, d, k)
-    \/ \E op \in {"cmp", "bit", "is_multiple_of", "is_odd", "bits"}, a, b \in 1..N, k \in 0..7 : Obs(op, a, b, k)
-    \/ \E a, d \in 1..N : Convert(a, d)
+    \/ \E op \in {"cmp", "bit", "is_multiple_of", "is_odd", "bits", "trailing_zeros", "count_ones"}, a, b \in 1..N, k \in 0..7 : Obs(op, a, b, k)
+    \/ \E a, d \in 1..N, w \in 1..4 : Convert(a, d)
+    \/ \E d \in 1..N, val \in {-4096, -129, -1, 0, 7, 64, 255, 4095}, k \in {2, 7, 10, 36} : Import("parse", d, val, k)
+    \/ \E op \in {"from_bytes_le", "from_signed_bytes_le"}, d \in 1..N, val \in {-4096, -129, -128, 0, 127, 128, 255, 256, 4095}, k \in 1..2 : Import(op, d, val, k)
+    \/ \E a, b, d \in 1..N, e \in (-1)..9 : ModPow(a, b, d, e)
+    \/ \E a, b, d \in 1..N, w \in 1..4 : ModInv(a, b, d)
+    \/ \E a, d \in 1..N, n \in {0, 1, 2, 3, 4, 5, 13, 14, 64} : NthRoot(a, d, n)
+    \/ \E op \in {"add", "sub", "mul", "div"}, a, b, d \in 1..N : Checked(op, a, b, d)
+    \* (w only weights the random choice of the simulator towards the rarer actions)
+    \/ \E a \in 1..N, k \in {2, 3, 8, 10, 16, 36}, w \in 1..4 : Export("to_str_radix", a, k)
+    \/ \E op \in {"to_bytes_le", "to_signed_bytes_le", "to_i8", "to_u8", "to_i16", "to_f64"}, a \in 1..N, w \in 1..4 : Export(op, a, 0)
+\* Spec keeps the disjunction at the top: the simulator first draws one disjunct, then one of its successors, and evaluates the
+\* invariants on the drawn state only.  SpecB (exhaustive exploration) tests the bound on the history once, before the
+\* quantifiers of the actions are expanded.
+Next == Steps
 Spec == Init /\ [][Next]_vars
+NextB == Room /\ Steps
+SpecB == Init /\ [][NextB]_vars
 
 \* BigUint registers never go negative (a type invariant of the machine itself)
 TypeOK == \A r \in 1..NU : regs[r] >= 0
